@@ -266,5 +266,47 @@ impl<T: RoundTrip, U: RoundTrip> RoundTrip for G2<T, U> {
 }
 //@endrequires
 
+
+// GM<T> (a field that merely mentions the parameter): relative to Vec<T> obeying the
+// trait-level contracts, which V-SER / V-DESER prove for the Vec implementations
+//@item @derive props=C01,C05,C13 name=GM::SerializeInner <<impl<T> epserde::ser::SerializeInner for GM<T> where>>
+//@  replace <<epserde::ser::helpers::check_mismatch::<Self>();>> <<>>
+//@  replace <<epserde::ser::Result>> <<SResult>>
+//@  replace <<epserde::ser::>> <<>>
+//@  replace <<backend.write(>> <<ww_write(backend, >>
+//@  body_prefix
+//@|    open spec fn enc(&self, pos: nat) -> Seq<u8> {
+//@|        self.v.enc(pos) + self.n.enc(pos + self.v.enc(pos).len())
+//@|    }
+//@  sub <<fn _serialize_inner(&self,>>
+//@  impl_arg
+//@  ret r
+//@  body_prefix
+//@|        let ghost sink0 = backend.sink();
+//@|        let ghost e1 = self.v.enc(backend.wpos());
+//@|        let ghost e2 = self.n.enc(backend.wpos() + e1.len());
+//@|        proof {
+//@|            assert forall|s2: Seq<u8>| is_prefix(sink0, s2) && #[trigger] is_prefix(s2, sink0 + e1)
+//@|                implies is_prefix(s2, sink0 + (e1 + e2)) by { lemma_err_first(sink0, e1, e2, s2); }
+//@|            assert forall|s2: Seq<u8>| is_prefix(sink0 + e1, s2) && #[trigger] is_prefix(s2, sink0 + e1 + e2)
+//@|                implies is_prefix(sink0, s2) && is_prefix(s2, sink0 + (e1 + e2)) by { lemma_err_second(sink0, e1, e2, s2); }
+//@|            assert(sink0 + e1 + e2 =~= sink0 + (e1 + e2));
+//@|        }
+//@end
+
+//@requires GM::SerializeInner
+impl<T> RoundTrip for GM<T> where Vec<T>: RoundTrip {
+    proof fn lemma_rt(&self, pos: nat, rest: Seq<u8>) {
+        let e1 = self.v.enc(pos);
+        let e2 = self.n.enc(pos + e1.len());
+        let s = self.enc(pos) + rest;
+        assert(s =~= e1 + (e2 + rest));
+        self.v.lemma_rt(pos, e2 + rest);
+        assert(s.skip(e1.len() as int) =~= e2 + rest);
+        self.n.lemma_rt(pos + e1.len(), rest);
+    }
+}
+//@endrequires
+
 } // verus!
 fn main() {}
